@@ -387,7 +387,7 @@ class C15Check:
 
         import halmos.__main__ as hm
 
-        solver = ch.choose(["yices", "yices", "z3"], "sw.solver")
+        solver = ch.choose(["yices", "yices", "yices", "yices", "yices", "z3"], "sw.solver")
         threads = ch.choose([1, 2, 4], "sw.threads")
         early_exit = ch.chance(0.15, "sw.ee")
         case = InvCase(ch)
